@@ -391,6 +391,30 @@ static void run_c08(long i, vh_rng *r)
         free(cl[0]); free(cl[1]);
         free_target(&t2);
     }
+    /* frequency warping is configured per decoder: a decoder created with warp parameters must behave the same whether or not a decoder
+     * without warping (or with other parameters) was created in between */
+    if (i % 12 == 7) {
+        static const char *wt[3] = { "affine", "inverse_linear", "piecewise_linear" }, *wp[3] = { "1.12 20", "1.08", "0.92 3000" }, *wp2[3] = { "0.9 -10", "0.95", "1.1 2500" };
+        int w = (int)vh_below(r, 3); vd_cfg wc = t.cfg, oc = t.cfg; decoder_t *da, *dn, *dc; record ra, rc2;
+        wc.warp_type = wt[w]; wc.warp_params = wp[w];
+        da = vd_decoder_fresh(&wc);
+        if (da && run_target(da, &t, &ra, 0) == 0) {
+            if (vh_chance(r, 0.5)) { oc.warp_type = wt[w]; oc.warp_params = wp2[w]; }     /* another decoder: unwarped, or warped differently */
+            dn = vd_decoder_fresh(&oc);
+            if (dn && vh_chance(r, 0.5)) { decoder_free(dn); dn = NULL; }
+            dc = vd_decoder_fresh(&wc);
+            if (dc && run_target(dc, &t, &rc2, 0) == 0) {
+                if (record_equal(&ra, &rc2, 1, why, sizeof(why)) != 1) vh_viol("fresh_decoder_differs|warp_state", "two fresh decoders with warp_type=%s warp_params='%s' disagree when a decoder with %s was created in between: %s", wt[w], wp[w], oc.warp_type ? "other warp parameters" : "no warping", why);
+                if (record_equal(&ra, &fresh, 0, why, sizeof(why)) != 1) vh_count("warping_changes_the_result", 1);
+                vh_count("warp_isolation_checks", 1);
+                record_free(&rc2);
+            }
+            if (dc) decoder_free(dc);
+            if (dn) decoder_free(dn);
+            record_free(&ra);
+        }
+        if (da) decoder_free(da);
+    }
     if (fresh.res.nseg > 0) vh_nontrivial("%016llx", (unsigned long long)(vd_result_hash(&fresh.res) ^ vh_hash(t.g.text.s, t.g.text.n, VH_H0)));
     if (i % 20 == 3) vh_sample("target: %s; %s; audio %s; %s -> \"%s\" (score %d); identical on a fresh decoder, after %d earlier utterances and on repetition", t.g.desc, sdesc, t.a.desc, pdesc, fresh.res.has_hyp ? fresh.res.hyp : "(none)", fresh.res.score, nh);
     record_free(&fresh);
